@@ -86,7 +86,8 @@ func raceKey(block string) string {
 			// means the access was made by ego on behalf of a program or request; reaching a harness
 			// frame first means the harness itself called into ego (settings, cache flush) and the
 			// access is the harness's own doing.
-			if strings.HasSuffix(f, "bytecode.(*Context).Run") || strings.HasSuffix(f, "router.(*Router).ServeHTTP") {
+			// (Contains, not equality: deferred parts of these functions appear as ServeHTTP.deferwrap2, Run.func1 ...)
+			if strings.Contains(f, "bytecode.(*Context).Run") || strings.Contains(f, "router.(*Router).ServeHTTP") {
 				break
 			}
 
@@ -369,3 +370,18 @@ func (r *raceLogReader) next() string {
 }
 
 func instrCount() int64 { return atomic.LoadInt64(&bytecode.InstructionsExecuted) }
+
+// thoroughWorkers: parallel worker processes of the thorough tier, fewer at high GOMAXPROCS so that
+// the machine (16 cores) is not oversubscribed many times over.
+func thoroughWorkers(gmp int) int {
+	w := 32 / gmp
+	if w < 2 {
+		w = 2
+	}
+
+	if w > 8 {
+		w = 8
+	}
+
+	return w
+}
